@@ -17,10 +17,10 @@ import (
 func init() { recorders["C09"] = recC09 }
 
 type bentry struct {
-	rq   vrequest
-	o    vopts
+	rq    vrequest
+	o     vopts
 	legal bool // options legal (not the incompatible pair), hash length right
-	lo   *ed25519.Options
+	lo    *ed25519.Options
 }
 
 // abstract kind of the entry under its options (Batch.tla): keyOk, keyAdm, sigAdm, eqCof, eqCl, cl
@@ -153,7 +153,11 @@ func recC09(c *ctx) {
 					xk = nil
 					e["keynil"] = true
 				}
-				bv.AddExpandedWithOptions(xk, b.rq.msg, b.rq.sig, b.lo)
+				if xk != nil && b.o == (vopts{false, true, false, false, false}) && b.lo.Context == "" && b.lo.Hash == 0 && r.Intn(2) == 0 {
+					bv.AddExpanded(xk, b.rq.msg, b.rq.sig)
+				} else {
+					bv.AddExpandedWithOptions(xk, b.rq.msg, b.rq.sig, b.lo)
+				}
 			case 2:
 				e["via"] = "expanded" // through the caching verifier: a nil key when the bytes do not expand
 				_, err := ed25519.NewExpandedPublicKey(b.rq.pk)
@@ -286,6 +290,22 @@ func recC09(c *ctx) {
 				batchonly()
 				verify()
 			}
+		}
+		// batch soundness probe: two entries whose S are off by +1 and -1 (errors cancel unless the random coefficients differ)
+		if h%4 == 1 {
+			bv.Reset()
+			emit(vt.Ev{"op": "reset"})
+			for _, delta := range []int64{1, -1} {
+				b := mk(0)
+				sv := vt.FromLE(b.rq.sig[32:])
+				sv.Add(sv, big.NewInt(delta))
+				sv.Mod(sv, vt.L)
+				copy(b.rq.sig[32:], vt.LE(sv, 32))
+				b.rq.cls.eqPrime = false
+				add(b, r.Intn(3))
+			}
+			batchonly()
+			verify()
 		}
 		// cached single verification under hits, misses and evictions: must equal plain verification
 		for i := 0; i < 6; i++ {
